@@ -481,12 +481,19 @@ def rule_r6(ctx) -> List[R.Inst]:
     return insts
 
 
+def rule_r7(ctx) -> List[R.Inst]:
+    from .common import forwarding_insts
+    return forwarding_insts(ctx, "C05.R7", BMSMAP + ".write_file", ("write",)) + \
+        forwarding_insts(ctx, "C05.R7", BMSMAP + ".write", ("_write_notes",))
+
+
 SPECS = [
     RuleSpec("C05.R1", rule_r1, 3, "A1", "tempo ids: header #BPMxx and channel-08 objects number the same list identically (base 36, 2 chars)"),
     RuleSpec("C05.R2", rule_r2, 1, "A7", "column->channel map is the inversion of the caller's layout"),
     RuleSpec("C05.R3", rule_r3, 10, "A5", "hits / hold heads / hold tails: position, lane and value come from the same row; tail = #LNOBJ id"),
     RuleSpec("C05.R4", rule_r4, 6, "A2", "all five object families are written once; row layout = (snap, channel, value)"),
     RuleSpec("C05.R5", rule_r5, 9, "A9", "line shapes: '#mmmcc:' note lines, 00 empty slots, '#KEY value' header lines"),
+    RuleSpec("C05.R7", rule_r7, 2, "A8", "write_file / write forward the channel layout and sample default they accept"),
     RuleSpec("C05.R6", rule_r6, 6, "A7", "writer timing map from every tempo point; slot = numerator * slots / (denominator * beats-per-measure)"),
 ]
 
